@@ -422,3 +422,15 @@ V('wl1-ext-cond', ['C18'], SH, "        if not f.endswith('.tex'):\n            
 V('ls1w-bom', ['C01'], T2, "        ft.write(text_get_txt(text))", "        ft.write(text_get_txt(text).replace('\\ufeff', ''))", 'LS1w')
 V('ls1w-skip-zero', ['C01'], T2, "        for n in text_get_num(text):\n            s = str(abs(n))",
   "        for n in text_get_num(text):\n            if not n:\n                continue\n            s = str(abs(n))", 'LS1w')
+
+V('mt7-first-only', ['C11', 'C10'], MP,
+  "        return next((t for t in self.toks if type(t) is defs.MathElemToken\n                        and t.txt not in parms.math_punctuation), None)",
+  "        tok = next((t for t in self.toks if type(t) is defs.MathElemToken), None)\n        return tok if tok and tok.txt not in parms.math_punctuation else None", 'MT7')
+V('mt8-partial-filter', ['C11', 'C10'], MP,
+  "        out = [t for t in out\n                    if type(t) not in (defs.VoidToken, defs.ActionToken)]\n        return out, tok",
+  "        return out, tok", 'MT8')
+V('mt8-neutral', ['C11', 'C10'], MP,
+  "        out = [t for t in out\n                    if type(t) not in (defs.VoidToken, defs.ActionToken)]\n        return out, tok",
+  "        cleaned = [t for t in out\n                    if type(t) not in (defs.ActionToken, defs.VoidToken)]\n        return cleaned, tok", [])
+V('th4-last-member', ['C16'], GH,
+  "        if not regions or h.beglin >= max(h.endlin for h in regions[-1]):", "        if not regions or h.beglin >= regions[-1][-1].endlin:", 'TH4')
